@@ -1,4 +1,4 @@
-//@@ unit c15_pipe properties=C15,C01 bounded=pipe.numbering_continues_without_gap_across_pushes_and_finish
+//@@ unit c15_pipe properties=C15,C01 bounded=pipe.numbering_continues_without_gap_across_pushes_and_finish,pipe.bytes_reach_the_decoder_as_lossy_text_whatever_the_chunking
 #![allow(unused_imports, dead_code, unused_variables, unused_mut)]
 #![feature(allocator_api)]
 use vstd::prelude::*;
